@@ -1,3 +1,59 @@
-import Driver.Common
-/- stub: model driver for C02 not built yet -/
-def main : IO Unit := Driver.lineLoop (fun _ => "unimplemented")
+import Driver.GenVL
+import ThriftVerif.Gen.Std
+/- model driver for C02 (and the generic W/R/N/Z ops of docs/BATCH.md) -/
+namespace Driver.C02
+open Gen Driver.GenVL
+
+def resStr {α} (r : Res α) (f : α → String) : String :=
+  match r with | .ok a => "ok " ++ f a | .err => "err" | .panic => "panic"
+
+/-- canonical bytes of a wire value: map entries sorted by encoded key (what refcodec.Canon does) -/
+partial def canonW : Wire.WVal → Wire.WVal
+  | .struct fs => .struct (fs.map fun (i, v) => (i, canonW v))
+  | .list t xs => .list t (xs.map canonW)
+  | .set t xs => .set t (xs.map canonW)
+  | .map k v kvs =>
+      let es := kvs.map fun (a, b) => (canonW a, canonW b)
+      let keyed := es.map fun (a, b) => (VL.hexEncode (Wire.encW a), (a, b))
+      let sorted := keyed.foldr (fun x acc => ins x acc) []
+      .map k v (sorted.map (·.2))
+  | w => w
+where ins (x : String × (Wire.WVal × Wire.WVal)) : List (String × (Wire.WVal × Wire.WVal)) → List (String × (Wire.WVal × Wire.WVal))
+  | [] => [x]
+  | y :: r => if x.1 ≤ y.1 then x :: y :: r else y :: ins x r
+
+def step (ps : Progs) (line : String) : Progs × String :=
+  let toks := VL.toks line
+  match schemaLine ps toks with
+  | some r => r
+  | none =>
+    match toks with
+    | "W" :: key :: rest =>
+      match splitKey key with
+      | some (u, i) => match ps.get u, parseVal rest with
+        | some P, some (v, []) =>
+            (ps, resStr (Std.toW P (.struct i) v) fun w => VL.hexEncode (Wire.encW (canonW w)))
+        | _, _ => (ps, "bad-op")
+      | none => (ps, "bad-op")
+    | ["R", key, hex] =>
+      match splitKey key with
+      | some (u, i) => match ps.get u, VL.hexDecode hex with
+        | some P, some bs =>
+            (ps, match Std.read P i bs with
+              | some v => "ok " ++ showVal P (.struct i) v
+              | none => "err")
+        | _, _ => (ps, "bad-op")
+      | none => (ps, "bad-op")
+    | ["N", key] | ["Z", key] =>
+      match splitKey key with
+      | some (u, i) => match ps.get u with
+        | some P => match P.struct? i with
+          | some sd => (ps, "ok " ++ showVal P (.struct i) (newX sd))
+          | none => (ps, "bad-op")
+        | none => (ps, "bad-op")
+      | none => (ps, "bad-op")
+    | _ => (ps, "bad-op")
+
+end Driver.C02
+
+def main : IO Unit := Driver.stateLoop ([] : Driver.GenVL.Progs) Driver.C02.step
